@@ -1,41 +1,79 @@
 CHECK = {
     "lean_module": "MidnightZK.Props.C20",
     "harness": "h-c20",
-    "translators": [],
+    "translators": ["c20_consts"],
     "level": "proof",
     "technique": "Lean 4 theorems over executable models (inner-product argument over a commutative ring with the "
                  "group as a module; Fiat-Shamir schedule of the in-circuit verifier against the off-circuit "
-                 "schedule model of C01; accumulator/MSM algebra), models tied to the code by structural "
-                 "correspondence; property oracles on the real code (MockProver on the verifier circuit for both "
-                 "self-emulation back-ends, LightAggregator round trips and corruptions)",
+                 "schedule model of C01; the arithmetic of the in-circuit verifier on the evaluations — Lagrange "
+                 "values, every identity, expected_h_eval — on canonical naturals mod p against the off-circuit "
+                 "identity model of C02, compared through ZMod p; the in-circuit multi-opening and its accumulator as "
+                 "formal linear combinations over base identifiers against C14's prepareGroups followed by "
+                 "Accumulator::from_dual_msm, over any field; accumulator/MSM algebra), models tied to the code by "
+                 "structural correspondence (hooked in-circuit value log, recorded transcripts, hooked off-circuit "
+                 "identity log) and by generated constants; property oracles on the real code (MockProver on the "
+                 "verifier circuit for both self-emulation back-ends, LightAggregator round trips and corruptions)",
     "rule": "one evaluation = one request line answered by both the implementation and the Lean model "
             "(IPA schedules, proof elements, verifier MSM scalars, verdicts with recorded challenges; in-circuit "
-            "transcript event log; accumulator operations); distinctness by hash of the request line. Oracle "
-            "checks (honest accepted / altered rejected) are counted in the distribution table",
+            "transcript event log; accumulator operations; gadget-verify: per MockProver run of a verifier circuit the "
+            "instance evaluations, l_0/l_last/l_blind, every identity value in order, x^n, expected_h_eval, the "
+            "x1-combined evaluation sets, f_eval, v and the accumulator term by term — base class, scalar, named "
+            "fixed-base scalars — recomputed by the model from the recorded transcript scalars); distinctness by hash "
+            "of the request line. Oracle checks (honest accepted / altered rejected / in-circuit values = off-circuit "
+            "values) are counted in the distribution table. The gadget-verify correspondence is deliberately tight: "
+            "it fixes the ORDER of the variable terms of the accumulator (the order is part of the public-input "
+            "encoding), not the order of arithmetic operations inside the gadget (re-association does not change a "
+            "line)",
     "explanation": "IPA: prover rounds, verifier scalar construction and verdicts are recomputed by the model from "
                    "discrete logarithms and the recorded challenges for lengths 1..64 (1..1024 thorough), every proof "
-                   "element / base / claim altered once. In-circuit verifier: the hooked transcript log of the real "
-                   "synthesis equals gadgetSchedule (proved equal to the off-circuit verifierSchedule) on generated "
-                   "inner circuits with/without lookups, trash arguments, 0-2 committed and 0-2 plain instance "
-                   "columns, several k; MockProver accepts instance = encode(vk, public inputs, off-circuit "
-                   "accumulator) and rejects altered ones, through the light and the foreign-curve back-end. "
-                   "LightAggregator: 1, 2, 3 inner proofs, every section of the aggregated proof and every IPA "
-                   "element corrupted, inner public inputs altered",
+                   "element / base / claim altered once. In-circuit verifier: (a) the hooked transcript log of the real "
+                   "synthesis equals gadgetSchedule (proved equal to the off-circuit verifierSchedule); (b) three-way "
+                   "tie of the arithmetic on every honest inner proof and on corrupted inner proofs / public inputs: the "
+                   "values logged inside verify_algebraic_constraints / vanishing::verify / kzg::multi_prepare during "
+                   "the MockProver run (add-only hook) and the accumulator the gadget returns = the Lean model of the "
+                   "gadget fed with the recorded transcript scalars (line by line) = the real off-circuit verifier "
+                   "(hooked identity log of PartiallyEvaluated::verify, squeezed challenges, "
+                   "Accumulator::from_dual_msm(prepare(..))), and the Lean off-circuit pipeline out of the C01/C02/C14 "
+                   "models gives the same values (off=1); on generated inner circuits with/without lookups, trash "
+                   "arguments, 0-2 committed and 0-2 plain instance columns, several k, through the light and the "
+                   "foreign-curve back-end; (c) MockProver accepts instance = encode(vk, public inputs, off-circuit "
+                   "accumulator) and rejects altered ones; every advice cell of the light verifier circuit sampled by "
+                   "the tamper sweep is constrained. LightAggregator: 1, 2, 3 inner proofs, every section of the "
+                   "aggregated proof and every IPA element corrupted, inner public inputs altered",
     "trusted_base": [
-        "blst group arithmetic and msm_best (C11/C12) are modelled as an abstract module over the scalar field",
+        "blst group arithmetic and msm_best (C11/C12) are modelled as an abstract module over the scalar field; "
+        "group elements appear in the accumulator model only as base identifiers",
         "Poseidon / Blake2b / SHA-512 inside the transcripts are not modelled: challenges are parameters of the "
         "model, taken from the real run",
-        "MockProver is the judge of satisfiability of the verifier circuits (C02 relates it to the real verifier)",
+        "MockProver is the judge of satisfiability of the verifier circuits (C02 relates it to the real verifier); "
+        "the chip operations (add_and_mul, linear_combination, mul, div, pow) are modelled by their documented value "
+        "semantics (C04 proves the native chip's gates against them)",
+        "the add-only hooks (circuits/src/verifier/verif_hooks.rs arith_log, transcript log) report the values of the "
+        "assigned cells they are given",
+        "the theorems about the multi-opening hold over every field; the driver runs the same generic definitions on "
+        "naturals modulo the generated modulus (Zn p)",
     ],
     "level_text": "Kernel-checked Lean theorems about executable models of the inner-product argument (all lengths "
-                  "2^k, all challenges), of the in-circuit verifier's Fiat-Shamir schedule (all supported shapes) and "
-                  "of the accumulator algebra, with the models checked against the real code on every run",
+                  "2^k, all challenges; one-round special soundness, algebraic part), of the in-circuit verifier's "
+                  "Fiat-Shamir schedule (all supported shapes), of the arithmetic it performs on the evaluations "
+                  "(every identity value, Lagrange values, x^n and expected_h_eval equal to the off-circuit ones for "
+                  "every constraint system and every transcript-scalar assignment), of its final multi-scalar "
+                  "multiplication (equal, term by term and fixed-base name by name, to from_dual_msm of the off-circuit "
+                  "term list for every grouping) and of the accumulator algebra, with the models checked against the "
+                  "real code on every run",
     "level_note": "partial: knowledge soundness of the IPA and of the aggregation argument (discrete log, random "
                   "oracle) is assumed; proved are completeness, the verifier-scalar formula, binding of every proof "
-                  "element / claim at fixed challenges, schedule equality and the accumulator algebra. The arithmetic "
-                  "the in-circuit verifier performs on evaluations (identities, Lagrange evaluations, multi-open "
-                  "folding) is covered by the MockProver equality with the off-circuit accumulator only, not by a "
-                  "Lean model",
+                  "element / claim at fixed challenges, the un-folding of one round with the explicit extracted opening "
+                  "(three accepted continuations), schedule equality, the accumulator algebra, "
+                  "in_circuit_ids_eq_off_circuit (identity level: instance evaluations, Lagrange values, x^n, every "
+                  "identity value, expected_h_eval; wherever the gadget does not panic — it does for an inner circuit "
+                  "without instance queries, known finding) and in_circuit_final_msm_eq_off_circuit (accumulator "
+                  "level, given the same power vectors and v) with the operation-by-operation equalities of the scalar "
+                  "side. Not mechanised, compared on every run only (gadget-verify lines, off=1): that "
+                  "evaluate_interpolated_polynomial equals eval_polynomial of lagrange_interpolate; the assembly of the multi-opening pieces along "
+                  "multi_prepare (f_eval fold, grouping with points compared as cells in-circuit and as values "
+                  "off-circuit); the LightAggregator's order of accumulation and public-input layout (round trips and "
+                  "corruptions only)",
     "assumptions": [
         "Fiat-Shamir challenges are free parameters of the model (random-oracle heuristic)",
         "discrete logarithm hardness in G1 (IPA binding beyond fixed challenges)",
